@@ -1,6 +1,6 @@
 """C20 - calibration reprices its target; derived parameters stay in sync with updates.
 
-Four sub-checks, all complete enumerations of the stated finite spaces on the real code.
+Five sub-checks, all complete enumerations of the stated finite spaces on the real code.
 
  calib-atm / calib-default / calib-product   (lattice sweep)
      exponential models of the four calibratable types (HEM, Merton, CGMY, VG) x start parameter sets (2; CGMY 5 in the
@@ -19,12 +19,24 @@ Four sub-checks, all complete enumerations of the stated finite spaces on the re
                 written in the function's signature is the volatility requested
        construction routes of the INPUT model: creator (utils.create_exponential_of_levy_model), reinit (a parameters object
                 built with other values, every attribute re-assigned, initialisation(), model constructor: what the
-                calibration helpers themselves do), deepcopy, pickle round trip, calibrated (the model returned by a
-                first run_default_calibration is calibrated again)
+                calibration helpers themselves do; the check's own version of mc.alphabets.with_reinit, for exponential
+                models), deepcopy, pickle round trip, dill round trip, copy.copy, calibrated (the model returned by a first
+                run_default_calibration is calibrated again)
        other market data  (r, d, spot) in {(0, 0, 1), (0.01, 0.04, 80)} (no rates and unit spot; d > r)
        call forms  positional arguments; the interval as a list; the interval in decreasing order (a returned value is
                 judged, a raise is not: the statement does not say a decreasing interval must be accepted); a product the
                 COS pricer does not support (library Digital payoff: only "input untouched" is judged)
+       argument forms  (T = 1, volatility 0.2, all three functions; quick: two parameters of the menu) `int`: Python ints
+                wherever the value is integral (maturity 1, spot 100, interval end points 0 / 1 / 2 / 100, strike 110,
+                parameter values such as eta1 = 20, intensity = 3, c = 1) and `numpy`: numpy.float64 scalars for the
+                maturity, the volatility, the market price, the strike, the spot and every parameter value, the interval as
+                a numpy array.  Judged like the usual form (the references are built from Python floats); a form the
+                library refuses with anything but the ValueError of a failed root search is counted
+                (argument_form_rejected), never an alarm.  The interval and the product handed over are compared with
+                their state before the call (failure class argument-modified)
+       exact ties  the solution is an END POINT of the interval: market price = fresh price at x* = a and at x* = b (quick:
+                call 1.0 / put 1.1, default parameter; thorough: every vanilla product, every parameter of the menu)
+       quick only: the CGMY start sets with y = -0.5, 1, 0 (the exact ties of the branches of cgmy.py) once per function
        the CGMY start sets of the library's own scripts (scripts/mlmc/tools/utils.py, scripts/statistics/ctmc/levy_copula.py:
                 y = 0.2, 1.2, 1.5, 0.3 with spot 80, c = 10), called as the scripts call (maturity 3/12, bs_sigma omitted)
      oracle, evaluated on models *constructed directly* from parameter values (never on the calibration's own objects):
@@ -56,13 +68,37 @@ Four sub-checks, all complete enumerations of the stated finite spaces on the re
      run_default_calibration(A, T=1, vol=.2) | (A, T=.25, bs_sigma omitted) | calibrate_..._to_atm_call(A, second parameter
      of the menu) | calibrate_model_parameter(A, put 1.1) | run_default_calibration(B) | (D) | (C) (all three with the SAME
      T / vol as the first: a memo keyed on too little shows) | use A (the behaviour battery above) | continue on a deep copy
-     of A (the original stays in the scene) | adopt: A := the model returned by the last default calibration of A.
-     quick: every valid sequence of length <= 2, and every calibration - {use, deepcopy, adopt} - calibration triple;
+     of A (the original stays in the scene) | adopt: A := the model returned by the last default calibration of A |
+     reparam: one parameter of A's OWN parameters object is re-assigned (the first one the default calibration does not
+     move), initialisation(), A := a new model built on that object (the models built on it before - the old A, C - alias
+     it: outside the statement, they leave the scene and later operations on them are skipped and counted).
+     quick: every valid sequence of length <= 2, and every calibration - {use, deepcopy, adopt, reparam} - calibration triple;
      thorough: every valid sequence of length <= 3 (valid = adopt has a default calibration of A before it, and at least one
      calibration occurs).  Oracle: every calibration is judged as above on directly constructed models (so a value that
      leaked from another call does not reprice); the deep snapshot of EVERY model of the scene (the one given and the
      others, copies and shared-parameter siblings included) is identical before / immediately after every calibration; at
      the end every model of the scene passes the behaviour battery against a directly constructed twin.
+
+ calib-neighbours   (two calibration problems that differ in exactly ONE thing, solved one after the other in one process)
+     per family x function (run_default_calibration | calibrate_model_parameter_to_atm_call | calibrate_model_parameter with
+     a put 1.1 x spot, T = .25, market = fresh price at x* = 30 % of the interval) x calibrated parameter (quick: default /
+     second of the menu / default; thorough: every parameter of the menu) x difference:
+       twin          nothing differs but the identity of the model object
+       param k far   ONE parameter of the model differs, each attribute of the family in turn (sigma, p, eta1, eta2,
+                     intensity | sigma, mu_j, sigma_j, intensity | c, g, m, y | sigma, nu, theta: in particular those a
+                     repr / str / hash / fingerprint of the model may omit), value of the second start set
+       param k near  the same with a relative change of 5e-5 (a fingerprint that rounds; quick: default calibration only)
+       env           spot | r | d alone
+       arg           ONE argument of the call: maturity | volatility | upper half / lower half of the interval (the
+                     solution lies in one of them at most) | the parameter's name with the same interval (NEIGH_COMMON); for
+                     the product route also x* | strike | call-put | maturity of the product (market price recomputed) and
+                     market price only | strike | call-put | maturity with the SAME market price
+     x order (first problem, second, first again | second, first, second again; quick: the second order for the `far`
+     variants of the default calibration and the argument variants) x models kept alive | constructed for each call and
+     discarded, gc.collect() in between (a memo keyed on id(); quick: `far` variants of the default calibration).
+     Oracle: every one of the three outcomes is judged as above on directly constructed models, so a value handed over
+     from the neighbouring problem does not reprice / lies outside the interval; both models are untouched by every call
+     (deep snapshots) and pass the behaviour battery at the end.
 
  assign   (explicit-state search, core.bfs)
      per Parameters class (HEM, Merton, VG, CGMY, Black-Scholes): state = history of events on one parameters object built
@@ -110,7 +146,9 @@ the parameters object), VG nu/theta (no constraint declared: any value is legal;
 intervals leaving the admissible domain of the parameter, the Black-Scholes model as calibration input (it has no
 parameters object: every calibration function raises AttributeError), assignments to spot / r / d of an existing
 exponential model (no initialisation() exists for them), the constraint properties of classes outside the anchored files
-(LevyTriplet.sigma, grid num, copula theta / eta).
+(LevyTriplet.sigma, grid num, copula theta / eta), copy.copy / dill of a bare Parameters object in the assignment search
+(deep copy and pickle are events there; the classes define no __copy__ / __reduce__), 1-element arrays as maturity /
+market price (the signatures say float).
 """
 from __future__ import annotations
 
@@ -125,8 +163,9 @@ from mc import core
 PID = "C20"
 LEVEL = "model_checking"
 RULE = (
-    "complete product family x start set x rates x calibrated parameter x maturity x target x construction route x call form "
-    "(calibration), every valid operation sequence up to the length bound on one scene of re-used / shared / copied models "
+    "complete product family x start set x rates x calibrated parameter x maturity x target x construction route x call form x "
+    "argument form (calibration), complete product family x function x one-difference variant x order x models kept / "
+    "discarded (neighbouring calibration problems), every valid operation sequence up to the length bound on one scene of re-used / shared / copied models "
     "(calibration histories), BFS over all assignment / initialisation / use / copy histories up to the depth bound per "
     "Parameters class, complete product factory x value x assignment route (constraints); a case is non-trivial when a "
     "calibration returned and was re-priced on a fresh model or raised and the bracket was examined, or when at least one "
@@ -309,6 +348,29 @@ def cases(tier):
                 for route in ROUTES[1:]:
                     out.append({"sub": "calib-default", "family": "cgmy", "start": s, "r": 0.02, "d": 0.0, "spot": spot2,
                                 "T": T, "vol": vol, "route": route})
+    if not thorough:
+        # the remaining branch classes of the CGMY exponent (y < 0, y = 1, y = 0: exact ties of the comparisons in cgmy.py)
+        for s in (2, 3, 4):
+            out.append(dict(base, sub="calib-default", family="cgmy", start=s, T=1.0, vol=0.2))
+            out.append(dict(base, sub="calib-atm", family="cgmy", start=s, param=1, T=1.0, vol=0.2))
+            out.append(dict(base, sub="calib-product", family="cgmy", start=s, param=0, T=0.25, kind="put", k=1.1, frac=0.3))
+    # exact ties: the solution is an end point of the interval (market price = price at x* = a / b)
+    for fam in FAMILIES:
+        for pi in range(len(CALIB[fam]) if thorough else 1):
+            for frac in (0.0, 1.0):
+                for kind, k in ([("call", 1.0), ("put", 1.1)] if not thorough else PRODUCT_KINDS[:6]):
+                    out.append(dict(base, sub="calib-product", family=fam, start=0, param=pi, T=0.25, kind=kind, k=k, frac=frac))
+    # other legal forms of the arguments (same problem as the usual form: T = 1, volatility 0.2, first market data)
+    for fam in FAMILIES:
+        for aform in ARG_FORMS:
+            out.append(dict(base, sub="calib-default", family=fam, start=0, T=1.0, vol=0.2, arg_form=aform))
+            for pi in range(len(CALIB[fam]) if thorough else 2):
+                out.append(dict(base, sub="calib-atm", family=fam, start=0, param=pi, T=1.0, vol=0.2, arg_form=aform))
+            out.append(dict(base, sub="calib-product", family=fam, start=0, param=0, T=1.0, kind="put", k=1.1, frac=0.3,
+                            arg_form=aform))
+    # two calibration problems that differ in exactly ONE thing, solved one after the other
+    for fam in FAMILIES:
+        out.extend(_neighbour_cases(fam, thorough))
     # histories of calibrations on re-used / shared / copied models
     for fam in FAMILIES:
         for seq in _history_cases(tier):
@@ -592,7 +654,7 @@ DONOR = {
     "vg": {"sigma": 0.17, "nu": 0.33, "theta": -0.07},
     "bs": {"sigma": 0.23},
 }
-ROUTES = ("ctor", "creator", "reinit", "deepcopy", "pickle", "calibrated")
+ROUTES = ("ctor", "creator", "reinit", "deepcopy", "pickle", "calibrated", "copy", "dill")
 
 
 def make_exp_model_via(route, fam, values, r, d, spot):
@@ -601,7 +663,8 @@ def make_exp_model_via(route, fam, values, r, d, spot):
       creator     utils.create_exponential_of_levy_model(type)(spot=, r=, d=, **values)
       reinit      a Parameters object built with other values (DONOR), every attribute re-assigned, initialisation(), then the
                   model constructor: what calibrate_model_parameter / run_default_calibration do
-      deepcopy    copy.deepcopy of a ctor model;   pickle   pickle round trip of a ctor model (what a worker pool receives)
+      deepcopy    copy.deepcopy of a ctor model;   pickle / dill   round trip of a ctor model (what a worker pool receives)
+      copy        copy.copy of a ctor model (shares the Levy model and the parameters object of the discarded original)
       calibrated  the model RETURNED by run_default_calibration(ctor model, maturity 0.5, volatility 0.25): calibrating again
                   from a calibrated model; `values` are then read from the returned model (its public parameter values)"""
     import copy
@@ -623,6 +686,12 @@ def make_exp_model_via(route, fam, values, r, d, spot):
         return copy.deepcopy(make_exp_model(fam, values, r, d, spot)), dict(values)
     if route == "pickle":
         return pickle.loads(pickle.dumps(make_exp_model(fam, values, r, d, spot))), dict(values)
+    if route == "copy":
+        return copy.copy(make_exp_model(fam, values, r, d, spot)), dict(values)
+    if route == "dill":
+        import dill
+
+        return dill.loads(dill.dumps(make_exp_model(fam, values, r, d, spot))), dict(values)
     if route == "calibrated":
         cm = U.run_default_calibration(model=make_exp_model(fam, values, r, d, spot), maturity=0.5, bs_sigma=0.25)
         return cm, param_values(fam, cm.levy_model.parameters)
@@ -1422,8 +1491,10 @@ def _check_behaviour(sh, fn_name, fam, model, values, r, d, spot, label, role="i
 def _setup(case):
     fam = case["family"]
     values = dict(STARTS[fam][case["start"]])
-    model, values = make_exp_model_via(case.get("route", "ctor"), fam, values, case["r"], case["d"], case["spot"])
-    return fam, values, model
+    aform = case.get("arg_form")
+    given = {k: _arg(aform, v) for k, v in values.items()}  # the oracle's reference models are built from the floats
+    model, got = make_exp_model_via(case.get("route", "ctor"), fam, given, case["r"], case["d"], _arg(aform, case["spot"]))
+    return fam, (values if aform else got), model
 
 
 def _vol_kwargs(U, fn, vol):
@@ -1433,6 +1504,33 @@ def _vol_kwargs(U, fn, vol):
     if vol is not None:
         return {"bs_sigma": vol}, vol
     return {}, float(inspect.signature(fn).parameters["bs_sigma"].default)
+
+
+ARG_FORMS = ("int", "numpy")
+
+
+def _arg(form, x):
+    """A legal form of a real argument: `int` = a Python int where the value is integral, `numpy` = a numpy float64."""
+    if form == "int" and float(x).is_integer():
+        return int(x)
+    if form == "numpy":
+        return np.float64(x)
+    return x
+
+
+def _interval_arg(form, interval):
+    if form == "numpy":
+        return np.array(interval, dtype=float)
+    if form == "int":
+        return tuple(_arg("int", v) for v in interval)
+    return interval
+
+
+def _check_argument_kept(sh, fn, name, given, before):
+    """The callee does not modify the caller's argument objects."""
+    sh.count("evaluations")
+    if repr(given) != before:
+        sh.violation(f"C20:calib:{fn}:argument-modified:{name}", f"{fn} changed its argument {name} from {before} to {given!r}", None)
 
 
 def _interval_as(form, interval):
@@ -1456,26 +1554,40 @@ def _sub_calib_atm(sh, case):
     T = case["T"]
     kw, vol = _vol_kwargs(U, U.calibrate_model_parameter_to_atm_call, case["vol"])
     form = case.get("interval_form", "tuple")
-    given = _interval_as(form, interval)
+    aform = case.get("arg_form")
+    given = _interval_arg(aform, _interval_as(form, interval))
+    given_before = repr(given)
     product = make_product("call", case["spot"], T)
     market = bs_call(case["spot"], case["spot"], case["r"], case["d"], vol, T)
     before = snap(model)
     fn = "calibrate_model_parameter_to_atm_call"
+    T_given = _arg(aform, T)
+    kw = {k: _arg(aform, v) for k, v in kw.items()}
     if case.get("form") == "positional":
-        call = lambda: U.calibrate_model_parameter_to_atm_call(model, pname, given, T, *([vol] if kw else []))  # noqa: E731
+        call = lambda: U.calibrate_model_parameter_to_atm_call(model, pname, given, T_given, *([vol] if kw else []))  # noqa: E731
     else:
         call = lambda: U.calibrate_model_parameter_to_atm_call(model=model, parameter=pname, parameter_interval=given,  # noqa: E731
-                                                               maturity=T, **kw)
+                                                               maturity=T_given, **kw)
     attempts = _call_with_seam_fallback(sh, fn, call, [model])
     for label, x, exc, after in attempts:
         _check_untouched(sh, fn, fam, before, after[0], label)
-        _judge_parameter(sh, fn, case, fam, values, pname, given, product, market, x, exc, label, raise_ok=form == "reversed")
+        _check_argument_kept(sh, fn, "parameter_interval", given, given_before)
+        rejected = bool(aform) and exc is not None and not isinstance(exc, ValueError)
+        if rejected:
+            # a form the library refuses (anything but the ValueError of a failed root search, which is judged as usual)
+            # is outside the alphabet
+            sh.count("argument_form_rejected")
+            sh.note(f"{fn}: argument form {aform} raised {type(exc).__name__} (not judged)")
+        _judge_parameter(sh, fn, case, fam, values, pname, [float(v) for v in given], product, market, x, exc, label,
+                         raise_ok=form == "reversed" or rejected)
     _check_behaviour(sh, fn, fam, model, values, case["r"], case["d"], case["spot"], attempts[-1][0])
     sh.cls(f"calib:family:{fam}:{pname}")
     sh.cls(f"calib:route:{case.get('route', 'ctor')}")
     sh.cls(f"calib:interval-form:{form}")
+    sh.cls(f"calib:argument-form:{aform or 'usual'}")
     sh.cls("calib:volatility:" + ("omitted" if case["vol"] is None else "given"))
-    if case["T"] == 1.0 and case["vol"] == 0.2 and case["start"] == 0 and case.get("route", "ctor") == "ctor" and form == "tuple":
+    if (case["T"] == 1.0 and case["vol"] == 0.2 and case["start"] == 0 and case.get("route", "ctor") == "ctor" and form == "tuple"
+            and not aform):
         label, x, exc, _ = attempts[-1]
         sh.sample({"sub": "calib-atm", "family": fam, "parameter": pname, "interval": interval, "T": T, "vol": vol,
                    "market_price": market, "attempt": label, "returned": None if exc else float(x),
@@ -1526,15 +1638,35 @@ def _sub_calib_product(sh, case):
     if not math.isfinite(market):
         sh.count("oracle_inconclusive")
         return
-    if case.get("form") == "positional":
-        call = lambda: U.calibrate_model_parameter(model, pname, interval, product, market)  # noqa: E731
+    aform = case.get("arg_form")
+    given = _interval_arg(aform, interval)
+    given_before = repr(given)
+    market_given = _arg(aform, market)
+    if aform:
+        # the product built with the same forms (strike, maturity)
+        product_given = make_product("forward" if kind.startswith("forward") else kind, _arg(aform, strike), _arg(aform, T))
     else:
-        call = lambda: U.calibrate_model_parameter(model=model, parameter=pname, parameter_interval=interval,  # noqa: E731
-                                                   product=product, market_price=market)
+        product_given = product
+    product_before = snap(product_given)
+    if case.get("form") == "positional":
+        call = lambda: U.calibrate_model_parameter(model, pname, given, product_given, market_given)  # noqa: E731
+    else:
+        call = lambda: U.calibrate_model_parameter(model=model, parameter=pname, parameter_interval=given,  # noqa: E731
+                                                   product=product_given, market_price=market_given)
     attempts = _call_with_seam_fallback(sh, fn, call, [model])
     for label, x, exc, after in attempts:
         _check_untouched(sh, fn, fam, before, after[0], label)
-        _judge_parameter(sh, fn, case, fam, values, pname, interval, product, market, x, exc, label)
+        _check_argument_kept(sh, fn, "parameter_interval", given, given_before)
+        sh.count("evaluations")
+        if snap(product_given) != product_before:
+            sh.violation(f"C20:calib:{fn}:argument-modified:product",
+                         f"{fn} changed the product it was given: {snap_diff(product_before, snap(product_given))} [{label}]", None)
+        rejected = bool(aform) and exc is not None and not isinstance(exc, ValueError)
+        if rejected:
+            sh.count("argument_form_rejected")
+            sh.note(f"{fn}: argument form {aform} raised {type(exc).__name__} (not judged)")
+        _judge_parameter(sh, fn, case, fam, values, pname, interval, product, market, x, exc, label, raise_ok=rejected)
+    sh.cls(f"calib:argument-form:{aform or 'usual'}")
     _check_behaviour(sh, fn, fam, model, values, r, d, spot, attempts[-1][0])
     sh.cls(f"calib:product:{kind}")
     sh.cls(f"calib:route:{case.get('route', 'ctor')}")
@@ -1637,13 +1769,21 @@ def _sub_calib_default(sh, case):
     kw, vol = _vol_kwargs(U, U.run_default_calibration, case["vol"])
     before = snap(model)
     fn = "run_default_calibration"
+    aform = case.get("arg_form")
+    T_given = _arg(aform, T)
+    kw = {k: _arg(aform, v) for k, v in kw.items()}
     if case.get("form") == "positional":
-        call = lambda: U.run_default_calibration(model, T, *([vol] if kw else []))  # noqa: E731
+        call = lambda: U.run_default_calibration(model, T_given, *([vol] if kw else []))  # noqa: E731
     else:
-        call = lambda: U.run_default_calibration(model=model, maturity=T, **kw)  # noqa: E731
+        call = lambda: U.run_default_calibration(model=model, maturity=T_given, **kw)  # noqa: E731
     attempts = _call_with_seam_fallback(sh, fn, call, [model])
+    sh.cls(f"calib:argument-form:{aform or 'usual'}")
     for label, cm, exc, after in attempts:
         _check_untouched(sh, fn, fam, before, after[0], label)
+        if aform and exc is not None and not isinstance(exc, ValueError):
+            sh.count("argument_form_rejected")  # a form the library refuses is outside the alphabet
+            sh.note(f"{fn}: argument form {aform} raised {type(exc).__name__} (not judged)")
+            continue
         if exc is None and (cm is model or getattr(getattr(cm, "levy_model", None), "parameters", None) is model.levy_model.parameters):
             sh.violation(f"C20:calib:{fn}:result-aliases-the-input:{fam}",
                          f"{fn} returned an object sharing the input's {'model' if cm is model else 'parameters'} [{label}]", None)
@@ -1677,9 +1817,10 @@ HIST_OPS = [
     ["use", "A"],
     ["deepcopy", "A"],
     ["adopt", "A"],
+    ["reparam", "A"],
 ]
 _H_CALIB = [0, 1, 2, 3, 4, 5, 6]
-_H_USE, _H_COPY, _H_ADOPT = 7, 8, 9
+_H_USE, _H_COPY, _H_ADOPT, _H_REPARAM = 7, 8, 9, 10
 
 
 def _history_valid(seq):
@@ -1700,7 +1841,7 @@ def _history_cases(tier):
         seqs += [[i, j, k] for i in range(n) for j in range(n) for k in range(n)]
     else:
         # calibrate - use / deep copy / adopt the calibrated model - calibrate again
-        seqs += [[i, j, k] for i in _H_CALIB for j in (_H_USE, _H_COPY, _H_ADOPT) for k in _H_CALIB]
+        seqs += [[i, j, k] for i in _H_CALIB for j in (_H_USE, _H_COPY, _H_ADOPT, _H_REPARAM) for k in _H_CALIB]
     return [s for s in seqs if _history_valid(s)]
 
 
@@ -1734,6 +1875,9 @@ def _sub_calib_history(sh, case):
         done.append("-".join(str(x) for x in op))
         kind, name = op[0], op[1]
         sl = slots[name]
+        if sl is None:  # a model that aliases a parameters object re-assigned since (outside the statement)
+            sh.count("history_operation_on_an_aliasing_model_skipped")
+            continue
         if kind == "use":
             _check_behaviour(sh, "history", sl.fam, sl.model, sl.values, sl.env["r"], sl.env["d"], sl.env["spot"],
                              f"{done[-1]}, {where}", role="re-used-model")
@@ -1742,6 +1886,25 @@ def _sub_calib_history(sh, case):
             new = Slot(sl.fam, sl.values, sl.env, copy.deepcopy(sl.model))
             slots[name] = new
             watched.append((name + "'", new))
+            continue
+        if kind == "reparam":
+            # re-parametrise the model's OWN parameters object (one parameter the default calibration does not move gets
+            # another value), initialisation(), and a NEW model built on that object takes the slot.  Models built before
+            # the assignment alias the object: outside the statement from now on, they leave the scene.
+            pobj = sl.model.levy_model.parameters
+            k = [a_ for a_ in ATTRS[sl.fam] if a_ != CALIB[sl.fam][0][0]][0]
+            newv = dict(sl.values)
+            newv[k] = _neigh_value(sl.fam, k, "far") if newv[k] == STARTS[sl.fam][0][k] else STARTS[sl.fam][0][k]
+            setattr(pobj, k, newv[k])
+            pobj.initialisation()
+            new = Slot(sl.fam, newv, sl.env, _classes(sl.fam).exponential_of_levy_model(
+                spot=sl.env["spot"], r=sl.env["r"], d=sl.env["d"], parameters=pobj))
+            watched = [(n_, w) for n_, w in watched if getattr(w.model.levy_model, "parameters", None) is not pobj]
+            for n_ in list(slots):
+                if slots[n_] is not None and getattr(slots[n_].model.levy_model, "parameters", None) is pobj:
+                    slots[n_] = None
+            slots[name] = new
+            watched.append((name + "-reparametrised", new))
             continue
         if kind == "adopt":
             cm, cvals = last_default
@@ -1803,3 +1966,205 @@ def _sub_calib_history(sh, case):
         _check_behaviour(sh, "history", w.fam, w.model, w.values, w.env["r"], w.env["d"], w.env["spot"],
                          f"model {wname} after " + " > ".join(done), role="re-used-model")
     sh.outcome((fam, tuple(case["ops"])))
+
+
+# ----------------------------------------------------------------------------------------------------------------------
+# neighbouring calibration problems: two problems that differ in exactly ONE thing, solved one after the other
+# ----------------------------------------------------------------------------------------------------------------------
+
+NEIGH_ENV = {"r": 0.02, "d": 0.0, "spot": 100.0}
+NEIGH_ENV_ALT = {"spot": 80.0, "r": 0.05, "d": 0.02}
+NEIGH_T, NEIGH_VOL = 1.0, 0.2
+NEIGH_T_ALT, NEIGH_VOL_ALT = 0.25, 0.35
+NEIGH_NEAR = 5e-5  # relative size of the `near` perturbation: far above the repricing tolerance, lost by 4 printed digits
+# an interval admissible for the first AND the second parameter of the menu (variant `parameter`: only the name changes)
+NEIGH_COMMON = {"hem": (0.0, 1.0), "merton": (0.0, 1.0), "cgmy": (2.0, 20.0), "vg": (0.01, 1.0)}
+NEIGH_PRODUCT = {"kind": "put", "k": 1.1, "T": 0.25, "frac": 0.3}
+NEIGH_PRODUCT_ALT = {"kind": "call", "k": 0.9, "T": 1.0, "frac": 0.7}
+
+
+def _neigh_value(fam, k, how):
+    a = STARTS[fam][0][k]
+    if how == "near":
+        return a * (1.0 + NEIGH_NEAR) if a != 0 else NEIGH_NEAR
+    v = STARTS[fam][1][k]
+    return v if v != a else DONOR[fam][k]
+
+
+def _neighbour_variants(fam, fn):
+    """The ways in which the second problem differs from the first: exactly one item of the list each."""
+    out = [["twin"]]  # nothing differs but the identity of the model object
+    for k in ATTRS[fam]:
+        out.append(["param", k, "far"])
+    for k in ATTRS[fam]:
+        out.append(["param", k, "near"])
+    for k in ("spot", "r", "d"):
+        out.append(["env", k])
+    if fn == "default":
+        out += [["arg", "T"], ["arg", "vol"]]
+    elif fn == "atm":
+        out += [["arg", "T"], ["arg", "vol"], ["arg", "interval-upper"], ["arg", "interval-lower"], ["arg", "parameter"]]
+    else:
+        out += [["arg", a] for a in ("frac", "k", "kind", "T", "market-only", "k-same-market", "kind-same-market", "T-same-market",
+                                     "interval-upper", "interval-lower", "parameter")]
+    return out
+
+
+def _neighbour_cases(fam, thorough):
+    out = []
+    n_par = len(CALIB[fam])
+    for fn in ("default", "atm", "product"):
+        for pi in ([0] if fn == "default" else (range(n_par) if thorough else ([1] if fn == "atm" else [0]))):
+            for var in _neighbour_variants(fam, fn):
+                if var[0] == "arg" and var[1] == "parameter" and pi > 1:
+                    continue
+                for order in ("AV", "VA"):
+                    for hold in (True, False):
+                        if not thorough:
+                            # quick: the second order for the `far` parameter variants and the argument variants; models
+                            # discarded between the calls for the `far` parameter variants of the default calibration
+                            if order == "VA" and not ((var[0] == "param" and var[2] == "far" and fn == "default") or var[0] == "arg"):
+                                continue
+                            if not hold and not (fn == "default" and order == "AV" and var[0] == "param" and var[2] == "far"):
+                                continue
+                            if fn != "default" and var[0] == "param" and var[2] == "near":
+                                continue
+                        if not hold and var[0] in ("arg", "twin"):
+                            continue
+                        out.append({"sub": "calib-neighbours", "family": fam, "fn": fn, "param": pi, "variant": var,
+                                    "order": order, "hold": hold})
+    return out
+
+
+def _neighbour_problems(case):
+    """(first problem, second problem): dicts with values, env, pname, interval, T, vol and, for the product route, the
+    product description; `market` = None means "the fresh price at x* of this problem", a number means "that price"."""
+    fam, fn, var = case["family"], case["fn"], case["variant"]
+    pi = case["param"]
+    pname, interval = CALIB[fam][pi]
+    if var[0] == "arg" and var[1] == "parameter":
+        pname, interval = CALIB[fam][0][0], NEIGH_COMMON[fam]
+    p1 = {"values": dict(STARTS[fam][0]), "env": dict(NEIGH_ENV), "pname": pname, "interval": tuple(interval), "T": NEIGH_T,
+          "vol": NEIGH_VOL, "same_model": False}
+    if fn == "product":
+        p1.update(NEIGH_PRODUCT, market=None)
+    p2 = {k: (dict(v) if isinstance(v, dict) else v) for k, v in p1.items()}
+    if var[0] == "twin":
+        pass
+    elif var[0] == "param":
+        p2["values"][var[1]] = _neigh_value(fam, var[1], var[2])
+        if fn == "product":
+            p2["market"] = "first"
+    elif var[0] == "env":
+        p2["env"][var[1]] = NEIGH_ENV_ALT[var[1]]
+        if fn == "product":
+            p2["market"] = "first"
+    else:
+        p2["same_model"] = True
+        a = var[1]
+        lo, hi = p1["interval"]
+        if a == "T" and fn != "product":
+            p2["T"] = NEIGH_T_ALT
+        elif a == "vol":
+            p2["vol"] = NEIGH_VOL_ALT
+        elif a == "interval-upper":
+            p2["interval"] = (0.5 * (lo + hi), hi)
+            p2["market"] = "first"
+        elif a == "interval-lower":
+            p2["interval"] = (lo, 0.5 * (lo + hi))
+            p2["market"] = "first"
+        elif a == "parameter":
+            p2["pname"] = CALIB[fam][1][0]
+            p2["market"] = "first"
+        elif a == "market-only":
+            p2["frac"] = NEIGH_PRODUCT_ALT["frac"]  # another market price for the same product
+        elif a in ("frac", "k", "kind", "T"):
+            p2[a] = NEIGH_PRODUCT_ALT[a]
+        elif a.endswith("-same-market"):
+            p2[a.split("-")[0]] = NEIGH_PRODUCT_ALT[a.split("-")[0]]
+            p2["market"] = "first"
+    return p1, p2
+
+
+def _sub_calib_neighbours(sh, case):
+    """first problem, second problem (one difference), first problem again: every outcome judged on directly constructed
+    models, every model of the scene untouched by every call."""
+    import gc
+
+    from rpylib.model import utils as U
+
+    fam, fn, var, hold = case["family"], case["fn"], case["variant"], case["hold"]
+    base_problem, changed_problem = _neighbour_problems(case)
+    p1, p2 = (changed_problem, base_problem) if case["order"] == "VA" else (base_problem, changed_problem)
+    vname = "-".join(str(v) for v in var)
+
+    def build(p):
+        return make_exp_model(fam, p["values"], p["env"]["r"], p["env"]["d"], p["env"]["spot"])
+
+    held = {}
+    if hold:
+        held[1] = build(p1)
+        held[2] = held[1] if changed_problem["same_model"] else build(p2)
+    markets = {}
+
+    def market_of(p, which):
+        """market price of the product route: the fresh price at x* of this problem, or - `market` = "first", set on the
+        changed problem only - the price of the unchanged problem (so that exactly one thing differs)"""
+        if which not in markets:
+            src = base_problem if p.get("market") == "first" else p
+            pn, (lo, hi) = src["pname"], src["interval"]
+            xstar = lo + src["frac"] * (hi - lo)
+            e = src["env"]
+            product = make_product(src["kind"], src["k"] * e["spot"], src["T"])
+            markets[which] = fresh_price(fam, dict(src["values"], **{pn: xstar}), e["r"], e["d"], e["spot"], product)
+        return markets[which]
+
+    fn_name = {"default": "run_default_calibration", "atm": "calibrate_model_parameter_to_atm_call",
+               "product": "calibrate_model_parameter"}[fn]
+    steps = [(1, p1, "first problem"), (2, p2, f"second problem (differs in {vname})"), (1, p1, "first problem again")]
+    for n, (which, p, text) in enumerate(steps):
+        env = p["env"]
+        model = held[which] if hold else build(p)
+        watched = list({id(m): m for m in ([model] + list(held.values()))}.values())
+        before = [snap(m) for m in watched]
+        label = f"neighbours {vname}, order {case['order']}, models {'kept' if hold else 'discarded'}: step {n + 1}, {text}"
+        pname, interval, T, vol = p["pname"], p["interval"], p["T"], p["vol"]
+        if fn == "default":
+            call = lambda: U.run_default_calibration(model=model, maturity=T, bs_sigma=vol)  # noqa: E731
+        elif fn == "atm":
+            product = make_product("call", env["spot"], T)
+            market = bs_call(env["spot"], env["spot"], env["r"], env["d"], vol, T)
+            call = lambda: U.calibrate_model_parameter_to_atm_call(model=model, parameter=pname, parameter_interval=interval,  # noqa: E731
+                                                                   maturity=T, bs_sigma=vol)
+        else:
+            product = make_product(p["kind"], p["k"] * env["spot"], p["T"])
+            try:
+                market = market_of(p, which)
+            except Exception:
+                market = math.nan
+            if not math.isfinite(market):
+                sh.count("oracle_inconclusive")
+                continue
+            call = lambda: U.calibrate_model_parameter(model=model, parameter=pname, parameter_interval=interval,  # noqa: E731
+                                                       product=product, market_price=market)
+        attempts = _call_with_seam_fallback(sh, fn_name, call, watched)
+        for att_label, res, exc, after in attempts:
+            lab = f"{att_label}; {label}"
+            for m, b, af in zip(watched, before, after):
+                _check_untouched(sh, fn_name, fam, b, af, lab,
+                                 role="input-model-modified" if m is model else "model-not-given-modified")
+            if fn == "default":
+                _judge_default_result(sh, env, fam, p["values"], type(model), (model.spot, model.r, model.d), res, exc, T, vol, lab)
+            else:
+                _judge_parameter(sh, fn_name, env, fam, p["values"], pname, interval, product, market, res, exc, lab)
+        sh.cls(f"neighbours:{fn}:{var[0]}:{var[1] if len(var) > 1 and var[0] != 'param' else (var[2] if var[0] == 'param' else '')}")
+        if not hold:
+            del model, watched, call, attempts
+            gc.collect()
+    for which, m in held.items():
+        if which == 2 and changed_problem["same_model"]:
+            continue
+        p = p1 if which == 1 else p2
+        _check_behaviour(sh, "neighbours", fam, m, p["values"], p["env"]["r"], p["env"]["d"], p["env"]["spot"],
+                         f"model of problem {which} after neighbours {vname}", role="re-used-model")
+    sh.outcome((fam, fn, case["param"], vname, case["order"], hold))
